@@ -7,6 +7,8 @@ assertions on the R2 token tree; (iii) returned dependency list == R8's list by 
 """
 from __future__ import annotations
 
+import os
+
 import hashlib
 
 from ..ref.deps import build_dep, head_payload, resolve_infos, version_text
@@ -40,6 +42,15 @@ D_URL = {"name": "u", "version": "0.1.5", "source": {"href": "https://cdn.exampl
          "script": [{"src": "u.js"}], "stylesheet": [{"href": "u.css", "media": "print"}]}
 D_URL2 = {"name": "u2", "version": "1", "source": {"href": "https://cdn.example/u/"},
           "script": [{"src": "u.js"}], "meta": [{"name": "am", "content": "ac"}], "head": "<link rel=\"icon\"/>"}
+# head given as objects rather than text: one childless Tag passed directly; a list mixing tags and text
+D_HEADTAG = {"name": "ht", "version": "1.0", "head_form": "tag",
+             "head_spec": [E("link", True, [], [["rel", "preload"], ["href", "x.woff"]])]}
+D_HEADLIST = {"name": "hl", "version": "1.1", "script": [{"src": "hl.js"}], "source": {"subdir": "libdir"},
+              "head_form": "list",
+              "head_spec": [E("meta", True, [], [["name", "hm"], ["content", "1"]]), T("a<b & c"),
+                            E("title", True, [T("hl-title")])]}
+D_HEADTL = {"name": "htl", "version": "0.3", "head_form": "taglist",
+            "head_spec": [E("script", True, [], [["src", "only-attr.js"]])]}
 HC_TAG = ["HC", [E("title", True, [T("Tt")])]]
 HC_TXT = ["HC", [T("plain & text")]]
 ITEMS = [T("txt"), B([T("b")]), I([T("i")]), ["DI", D_A1], ["DI", D_A2], ["DI", D_URL], HC_TAG, HC_TXT,
@@ -53,6 +64,11 @@ ITEMS = [T("txt"), B([T("b")]), I([T("i")]), ["DI", D_A1], ["DI", D_A2], ["DI", 
          # head_content whose payload is an object that is tagifiable and self-rendering (as a JSX
          # component is): the document shows its expansion
          ["HC", [["XR", E("title", True, [T("xr-title")]), "<title>xr-title</title>"]]]]
+# items outside the main alphabet: dependency heads given as objects; document-level tag names
+D_AMP = {"name": "R&D <w>", "version": "1.0", "source": {"subdir": "libdir"}, "script": [{"src": "amp.js"}]}
+EXTRA_ITEMS = [["DI", D_AMP], ["DI", D_HEADTAG], ["DI", D_HEADLIST], ["DI", D_HEADTL], E("title", True, [T("doc-title")]),
+               E("base", False, [], [["href", "/"]]), E("meta", True, [], [["name", "viewport"]]),
+               E("link", True, [], [["rel", "icon"]]), E("head", True, [T("inner-head")])]
 HEADKIDS = [E("title", True, [T("user title")]), ["DI", D_A2], E("link", True, [], [["rel", "x"]]), HC_TAG,
             E("meta", True, [], [["charset", "iso-8859-1"]])]
 ATTRS = [[], [["lang", "en"]], [["class_", "k"]]]
@@ -130,10 +146,17 @@ def dep_value(d):
             None if d.head is None else d.head.get_html_string())
 
 
+def head_markup(i):
+    if i.get("head_spec") is not None and i.get("head_form"):
+        from htmltools import TagList
+        return TagList(*[build(c) for c in i["head_spec"]]).get_html_string()
+    return i.get("head")
+
+
 def info_value(i):
     st = [dict(s, **({} if "rel" in s else {"rel": "stylesheet"})) for s in i.get("stylesheet") or []]
     return (i["name"], version_text(i["version"]), repr(i.get("source")), repr(i.get("script") or []),
-            repr(st), repr(i.get("meta") or []), i.get("head"))
+            repr(st), repr(i.get("meta") or []), head_markup(i))
 
 
 # -------------------------------------------------------- structural checks
@@ -308,7 +331,52 @@ def html_variants(items_space):
                     Const([False, True])), mk)
 
 
+def name_cases():
+    import json
+    cat = json.load(open(os.path.join(os.path.dirname(os.path.abspath(__file__)), "c19_catalogue.json")))
+    names = list(dict.fromkeys(cat["tags"] + cat["svg"]))
+    out = []
+    for n in names:
+        out.append([E(n, True, [T("x")])])
+        out.append([E(n, False, [T("x")], [["id", "i"]]), T("txt")])
+        out.append([T("a"), E(n, True, [], []), ["DI", D_A1]])
+        out.append([E("div", True, [E(n, True, [T("nested")])])])
+    return out
+
+
 def plan(tier):
+    return plan0(tier) + plan_extra(tier)
+
+
+def plan_extra(tier):
+    it2 = Const([T("txt"), B([T("b")]), ["DI", D_A1], HC_TAG] + EXTRA_ITEMS)
+    if tier == "quick":
+        content = Alt(Seq(it2, 0, 2), Map(Seq(it2, 0, 1), lambda ks: [["E", "body", True, [["class", "bd"]], ks]]),
+                      Map(Seq(Const(EXTRA_ITEMS), 0, 1), lambda ks: [["E", "html", True, [], [
+                          ["E", "head", True, [], [E("title", True, [T("user title")])]], ["E", "body", True, [], ks]]]]))
+    else:
+        content = Alt(Seq(it2, 0, 2), Map(Seq(it2, 0, 2), lambda ks: [["E", "body", True, [["class", "bd"]], ks]]),
+                      html_variants(Const(EXTRA_ITEMS)))
+    if tier == "quick":
+        cfg = Prod(Const(["ctor", "append", "render-mutate-render"]), Const(ATTRS[:2]), Const(["lib", None]), Const([True, False]))
+    else:
+        cfg = Prod(Const(["ctor", "append", "ctor+append", "render-append-render", "render-empty-then-append",
+                          "taglist-shared", "render-mutate-render"]), Const(ATTRS), Const(PREFIXES), Const([True, False]))
+    names = Const(name_cases())
+    ncfg = Prod(Const(["ctor", "append"]), Const(ATTRS[:2]), Const(["lib"]), Const([True]))
+    return [
+        dict(kind="space", name="object-heads-and-document-level-tags", fn=fn,
+             space=Map(Prod(content, cfg), lambda c: (c[0],) + tuple(c[1])),
+             note=f"{content.size} contents over dependencies whose head is a Tag / list / TagList object and top-level "
+                  "<title>/<base>/<meta>/<link>/<head> tags (ordinary content: they stay where the user put them)"),
+        dict(kind="space", name="every-catalogue-tag-name-as-content", fn=fn,
+             space=Map(Prod(names, ncfg), lambda c: (c[0],) + tuple(c[1])),
+             note=f"{names.size} contents: every HTML and SVG tag name of the catalogue as sole content, beside text, "
+                  "beside a dependency, and nested"),
+    ]
+
+
+def plan0(tier):
     items = Const(ITEMS)
     nfrag = 2 if tier == "quick" else 3
     frag = Seq(items, 0, nfrag)
